@@ -25,6 +25,10 @@ var c15Progs = []struct {
 	{"char_literal", "{A}:\n\tMOV AL,'a'\n\tCMP AL,'z'\n\tMOV BX,{A}\n\tDB 'A','Z'\n{B}:\n\tMOV CX,'a'+1\n\tDW {B}\n", 2, false},
 	// strings and character literals whose text is a name of the pool: a label of that name must not capture them
 	{"strings_named_like_symbols", "{A}:\n\tDB 1\n{B}:\n\tDB \"a\",\"aa\",\"A\",\"kbd_wait\",0\n\tDB \"VALUE\",\"each\",\"ah\",\"dead\",\"INIT\",\"Z9\",\"a0h\"\n\tDB \"prefix89\",\"prefix89x\",\"AXIS\",\"FLAGS\",\"EQUAL\",\"a_\",\"aA\",\"Kick\"\n\tDB 'a','A'\n\tDW {A},{B}\n\tMOV SI,{B}\n\tJMP {A}\n", 2, false},
+	// an EQU name that stands for a label (names of the pool that are prefixes of one another, with and without digits)
+	{"equ_alias_of_label", "{B}:\n\tDB 1,2,3,4\n{A} EQU {B}\n\tMOV AX,[{A}]\n\tMOV BX,{A}\n\tMOV [{A}],AL\n\tJMP {A}\n\tCALL {A}\n\tHLT\n", 2, false},
+	// the same name declared GLOBAL twice, among other names in every order of the pool
+	{"wcoff_repeated_global", "[FORMAT \"WCOFF\"]\n[BITS 32]\n\tGLOBAL {A}, {B}\n\tGLOBAL {C}\n\tGLOBAL {B}\n[SECTION .text]\n{A}:\n\tNOP\n{B}:\n\tRET\n{C}:\n\tMOV ECX,[ESP+4]\n\tRET\n", 2, true},
 	{"wcoff", "[FORMAT \"WCOFF\"]\n[INSTRSET \"i486p\"]\n[BITS 32]\n[FILE \"f.nas\"]\n\tGLOBAL {A}, {B}\n[SECTION .text]\n{A}:\n\tRET\n{B}:\n\tMOV EAX,1\n\tRET\n{C}:\n\tHLT\n", 3, true},
 	{"wcoff_one_by_one", "[FORMAT \"WCOFF\"]\n[BITS 32]\n\tGLOBAL {C}\n\tGLOBAL {A}\n[SECTION .text]\n{A}:\n\tNOP\n{B}:\n\tRET\n{C}:\n\tMOV ECX,[ESP+4]\n\tRET\n", 3, true},
 }
@@ -47,12 +51,12 @@ func c15Fill(tmpl string, names [3]string) string {
 func c15Scenario(tier string) *core.Scenario {
 	names := c15Names
 	if tier != "thorough" {
-		names = []string{"a", "aa", "A", "a_", "aA", "prefix89", "prefix89x", "prefix89xy", "n234567890123456789012345678901234567890", "n23456789012345678901234567890123456789X", "Z9", "kbd_wait", "mmio_done", "xmm_save", "Kick", "VALUE", "FLAGS", "MAXLEN", "AXIS", "INIT", "EQUAL", "SHORTCUT", "each", "a0h", "dead", "ah"}
+		names = []string{"a", "aa", "a1", "A", "a_", "aA", "prefix89", "prefix89x", "prefix89xy", "n234567890123456789012345678901234567890", "n23456789012345678901234567890123456789X", "Z9", "kbd_wait", "mmio_done", "xmm_save", "Kick", "VALUE", "FLAGS", "MAXLEN", "AXIS", "INIT", "EQUAL", "SHORTCUT", "each", "a0h", "dead", "ah"}
 	}
 	ref := [3]string{"first_sym", "second_sym", "third_sym"}
 	return &core.Scenario{
 		Name: "renamings", Bound: -1,
-		Rule:   "11 programs (labels and EQUs in every operand position, next to strings and character literals that spell names of the pool, flat and WCOFF with GLOBAL) x every injective assignment of their symbols into an adversarial name pool (one-letter names, names differing only in case, names that are prefixes/suffixes of each other, 8/9-byte and 40-byte names): flat output must be byte-identical to the reference naming; COFF must be identical except symbol-name fields and string table; non-trivial = assembled and differs from the reference naming",
+		Rule:   "13 programs (labels and EQUs in every operand position, next to strings and character literals that spell names of the pool, flat and WCOFF with GLOBAL) x every injective assignment of their symbols into an adversarial name pool (one-letter names, names differing only in case, names that are prefixes/suffixes of each other, 8/9-byte and 40-byte names): flat output must be byte-identical to the reference naming; COFF must be identical except symbol-name fields and string table; non-trivial = assembled and differs from the reference naming",
 		Bounds: map[string]any{"programs": len(c15Progs), "name_pool": names},
 		Build: func(c *core.Chooser) *core.Case {
 			p := c15Progs[c.Pick("prog", len(c15Progs))]
